@@ -483,7 +483,7 @@ struct Input {
     cfg: Value,
 }
 
-fn inputs(rng: &mut Rng, n: usize, maxstat: usize) -> Vec<Input> {
+fn inputs(rng: &mut Rng, n: usize, maxstat: usize, seed: u64, extra_only: bool) -> Vec<Input> {
     let mut v = Vec::new();
     let mut pre: Vec<Input> = Vec::new();
     let stds = std_files();
@@ -529,6 +529,21 @@ fn inputs(rng: &mut Rng, n: usize, maxstat: usize) -> Vec<Input> {
             }
         }
     }
+    // an additional stream with its own PRNG (the inputs above do not shift): tricky short strings under the quote styles
+    let mut srng = Rng::new(seed ^ 0x5712_1465);
+    let mut extra = Vec::new();
+    for j in 0..(n / 4).max(30) {
+        let cfg = match srng.below(5) {
+            0 => json!({}),
+            1 | 2 => json!({"output": {"quote_style": "Double"}}),
+            _ => json!({"output": {"quote_style": "Single"}}),
+        };
+        extra.push(Input { origin: "strings", name: format!("str{j}"), text: gen_string_program(&mut srng), cfg });
+    }
+    if extra_only {
+        return extra;
+    }
+    v.append(&mut extra);
     v
 }
 
@@ -633,7 +648,7 @@ fn main() {
                 .and_then(|t| serde_json::from_str::<Vec<String>>(&t).ok())
                 .map(|v| v.into_iter().collect())
                 .unwrap_or_default();
-            let ins = inputs(&mut rng, n, maxstat);
+            let ins = inputs(&mut rng, n, maxstat, seed, args.flag("extra-only"));
             let mut dist: BTreeMap<String, usize> = BTreeMap::new();
             let mut distinct = HashSet::new();
             let mut valid_n = 0usize;
